@@ -12,6 +12,36 @@ sys.path.insert(0, os.path.dirname(os.path.abspath(__file__)))
 import vlib  # noqa: E402
 
 
+# Extra engines run as additional obligations of a property's check (they are not properties of their own):
+# E2E = the composed end-to-end model of the ranking task (coq/E2E, notes/E2E.md) — obligations of C08.
+EXTRA = {"C08": ["e2e"]}
+
+
+def run_extra(run, name):
+    emod = importlib.import_module("props.%s" % name)
+    sub = vlib.Run(name.upper(), run.tier, run.seed)
+    try:
+        emod.check(sub, None)
+    except vlib.Broken as b:
+        sub.oblige(b.obligation, False, b.detail)
+        sub.violation("broken-obligation", b.obligation, found_input=False, extra=b.detail[-3000:])
+    tag = name.upper() + ":"
+    for o in sub.obligations:
+        run.obligations.append((tag + o[0], o[1], o[2]))
+    for v in sub.violations:
+        v = dict(v)
+        v["obligation"] = tag + str(v["obligation"])
+        if v.get("case") is not None:
+            v["case"] = {"_engine": name, "case": v["case"]}
+        run.violations.append(v)
+    run.evaluations += sub.evaluations
+    run.distinct |= {tag + d for d in sub.distinct}
+    run.cov[name.upper()] = dict(sub.cov, evaluations=sub.evaluations, distinct_nontrivial=len(sub.distinct),
+                                 samples=sub.samples[:2])
+    run.trusted += [tag + " " + x for x in sub.trusted]
+    run.assumptions += [tag + " " + x for x in sub.assumptions]
+
+
 def main():
     ap = argparse.ArgumentParser()
     ap.add_argument("pid")
@@ -26,7 +56,14 @@ def main():
     if a.replay:
         replay = json.load(open(a.replay))
     try:
-        mod.check(run, replay)
+        if replay is not None and isinstance(replay.get("case"), dict) and replay["case"].get("_engine"):
+            emod = importlib.import_module("props.%s" % replay["case"]["_engine"])
+            emod.check(run, dict(replay, case=replay["case"]["case"]))
+        else:
+            mod.check(run, replay)
+            if replay is None:
+                for name in EXTRA.get(pid, []):
+                    run_extra(run, name)
     except vlib.Broken as b:
         run.oblige(b.obligation, False, b.detail)
         run.violation("broken-obligation", b.obligation, found_input=False, extra=b.detail[-3000:])
